@@ -14,12 +14,24 @@ def ctl (cfg : TebdCfg) (post : Bool) (k : Int) : List ChainEv :=
 def stepEvs (cfg : TebdCfg) (k : Int) : List ChainEv :=
   ctl cfg true k ++ [.evolve (k + 1)] ++ ctl cfg false (k + 1)
 
+/-- **the obligation on `PtTebdBackend.compute_traces`**: every path recomputes the traces
+    (`decide` on the regenerated path list; breaks if a path returns early on cached traces) -/
+theorem tracesAlwaysFresh_true : tracesAlwaysFresh = true := by decide
+
+/-- `_append_results()` records the CURRENT chain state — whatever traces were lying around
+    before — and leaves no traces behind -/
+theorem tebdAppend_eq (t : Tebd) :
+    tebdAppend t =
+      { t with results := t.results ++ [(t.step.getD 0, t.chain)], traces := none } := by
+  unfold tebdAppend
+  simp [tebd_append_results, traceRun, computeTraces, tracesAlwaysFresh_true]
+
 theorem tebdStep_eq (cfg : TebdCfg) (t : Tebd) (k : Int) (hs : t.step = some k) :
     tebdStep cfg t =
       ⟨some (k + 1), t.chain ++ stepEvs cfg k,
-       t.results ++ [(k + 1, t.chain ++ stepEvs cfg k)]⟩ := by
+       t.results ++ [(k + 1, t.chain ++ stepEvs cfg k)], none⟩ := by
   unfold tebdStep stepEvs ctl
-  simp only [hs, Option.getD_some, tebd_compute_step, tebdRun, Aff.eval]
+  simp only [hs, Option.getD_some, tebd_compute_step, tebdRun, Aff.eval, tebdAppend_eq]
   have e1 : (1 : Int) * k + 0 = k := by omega
   have e2 : (1 : Int) * k + 1 = k + 1 := by omega
   rw [e1, e2]
@@ -29,16 +41,18 @@ theorem tebdStep_eq (cfg : TebdCfg) (t : Tebd) (k : Int) (hs : t.step = some k) 
 theorem tebdInit_eq (cfg : TebdCfg) (t : Tebd) :
     tebdInit cfg t =
       ⟨some cfg.startStep, cfg.initial ++ ctl cfg false cfg.startStep,
-       [(cfg.startStep, cfg.initial ++ ctl cfg false cfg.startStep)]⟩ := by
+       [(cfg.startStep, cfg.initial ++ ctl cfg false cfg.startStep)], none⟩ := by
   unfold tebdInit ctl
-  simp only [tebd_initialize, tebdRun, Aff.eval]
+  simp only [tebd_initialize, tebdRun, Aff.eval, tebdAppend_eq]
   have e1 : (1 : Int) * cfg.startStep + 0 = cfg.startStep := by omega
   simp only [e1]
   by_cases h : cfg.hasCtrl false cfg.startStep = true <;> simp [h]
 
 /-- the generated lists contain only micro-ops that `tebdRun` gives a meaning to -/
 theorem tebd_lists_wellformed :
-    tebdOpsOnly tebd_compute_step = true ∧ tebdOpsOnly tebd_initialize = true := by decide
+    tebdOpsOnly tebd_compute_step = true ∧ tebdOpsOnly tebd_initialize = true ∧
+    traceOpsOnly tebd_append_results = true ∧ traceOpsOnly tebd_get_dm = true ∧
+    traceOpsOnly tebd_get_results = true ∧ traceOpsOnly tebd_get_mps = true := by decide
 
 theorem iter_tebdStep_step (cfg : TebdCfg) (j : Nat) : ∀ (t : Tebd) (k : Int), t.step = some k →
     (iter (tebdStep cfg) j t).step = some (k + (j : Int)) := by
@@ -185,5 +199,64 @@ theorem tebdCanon_last (cfg : TebdCfg) (j : Nat) :
     simp only []
     congr 3
     omega
+
+/-! ### read-only getters between compute calls -/
+
+/-- what a user can observe of / continue from a PT-TEBD object, apart from the temporary traces -/
+def TebdSame (t u : Tebd) : Prop := t.step = u.step ∧ t.chain = u.chain ∧ t.results = u.results
+
+theorem TebdSame.refl (t : Tebd) : TebdSame t t := ⟨rfl, rfl, rfl⟩
+
+theorem traceRun_same (ops : List MicroOp) (h : ops.all (fun o => o != .record) = true) :
+    ∀ (t : Tebd) rd rc, TebdSame (traceRun ops t rd rc).1 t := by
+  induction ops with
+  | nil => intro t rd rc; exact TebdSame.refl t
+  | cons o r ih =>
+    intro t rd rc
+    simp only [List.all_cons, Bool.and_eq_true] at h
+    have hr := ih h.2
+    cases o with
+    | traceCompute =>
+      simp only [traceRun]
+      have := hr (computeTraces t) rd rc
+      have hc : TebdSame (computeTraces t) t := by
+        unfold computeTraces
+        split
+        · exact ⟨rfl, rfl, rfl⟩
+        · split <;> exact ⟨rfl, rfl, rfl⟩
+      exact ⟨this.1.trans hc.1, this.2.1.trans hc.2.1, this.2.2.trans hc.2.2⟩
+    | _ => simp only [traceRun]; exact hr _ _ _
+
+/-- a getter changes neither step, chain state nor recorded results -/
+theorem tebdGetter_same (ops : List MicroOp) (h : ops.all (fun o => o != .record) = true)
+    (t : Tebd) : TebdSame (tebdGetter ops t) t := by
+  unfold tebdGetter
+  cases t.step with
+  | none => exact TebdSame.refl t
+  | some k => exact traceRun_same ops h t none false
+
+theorem tebdStep_same (cfg : TebdCfg) (t u : Tebd) (h : TebdSame t u) (k : Int)
+    (hs : t.step = some k) : tebdStep cfg t = tebdStep cfg u := by
+  rw [tebdStep_eq cfg t k hs, tebdStep_eq cfg u k (by rw [← h.1]; exact hs), h.2.1, h.2.2]
+
+/-- `compute(e)` gives the same observable object from two objects that differ only in the
+    temporary traces they carry -/
+theorem tebdCompute_same (cfg : TebdCfg) (t u : Tebd) (h : TebdSame t u) (e : Int) :
+    TebdSame (tebdCompute cfg t e) (tebdCompute cfg u e) := by
+  cases hs : t.step with
+  | none =>
+    have hu : u.step = none := by rw [← h.1]; exact hs
+    rw [tebdCompute_fresh cfg t hs, tebdCompute_fresh cfg u hu, tebdInit_any cfg t,
+      tebdInit_any cfg u]
+    exact TebdSame.refl _
+  | some k =>
+    have hu : u.step = some k := by rw [← h.1]; exact hs
+    rw [tebdCompute_started cfg t k hs, tebdCompute_started cfg u k hu]
+    cases (e - k).toNat with
+    | zero => simpa [iter] using h
+    | succ d =>
+      simp only [iter]
+      rw [tebdStep_same cfg t u h k hs]
+      exact TebdSame.refl _
 
 end OQuPyVerif.Histories
